@@ -516,6 +516,16 @@ fn c13(seed: u64, thorough: bool) -> Scenario {
         g.world.stdin = StdinSpec::Terminal;
     }
     make_healthy_except(&mut g.world, &carrier_path);
+    // positional globs that may or may not match the carrier file: with a diff, a file outside
+    // the globs is still examined through the diff; without one it is simply out of scope
+    if g.rng.chance(1, 4) {
+        let f = g.rng.below(g.world.files.len());
+        let path = g.world.files[f].path.clone();
+        let name = path.rsplit('/').next().unwrap().to_string();
+        let ext = name.rsplit('.').next().unwrap().to_string();
+        let gl = if g.rng.chance(1, 2) { format!("**/*.{ext}") } else { format!("**/{name}") };
+        g.world.args.globs.push(gl);
+    }
     let mut tags = vec![format!("kind={kind}"), format!("carrier={carrier}")];
     tags.extend(big_tags);
     let want_failed;
@@ -563,7 +573,12 @@ fn c13(seed: u64, thorough: bool) -> Scenario {
             world.env.ai_key = Some(String::new());
         }
     }
-    let got = genw::expected_kind(&world);
+    let mut got = genw::expected_kind(&world);
+    if !world.args.globs.is_empty() && ((want_failed && got != "failed") || (!want_failed && got == "failed")) {
+        // the globs changed the variant's intent (e.g. carrier file out of scope without a diff)
+        world.args.globs.clear();
+        got = genw::expected_kind(&world);
+    }
     if want_failed && got != "failed" {
         panic!("HARNESS-BUG: C13 generator wanted a failing world for {kind}, model says {got}: {}", serde_json::to_string(&world).unwrap());
     }
